@@ -317,8 +317,8 @@ theorem dt_keyedWalk_exact (cfg : Cfg) (h : NoOpts cfg) (hd : cfg.direct = false
         (eraseKey (key0 x) orr) (i + 1) hx.2 hix2 ho'
       have hpair : ∃ r1, keyedWalk cfg p sa oa i (x :: xs) ((x :: xs).map key0) sr orr = .ok (r1 ++ r') ∧
           (r1.diffs = 0 ↔ eqv x y) := by
-        have hce := classifyItem_exactP h p (p ++ [if i = j then PSeg.idx i else PSeg.idx2 i j]) (p ++ [.idx i]) sa oa x y
-        cases hcl : classifyItem cfg p (p ++ [if i = j then PSeg.idx i else PSeg.idx2 i j]) (p ++ [.idx i]) sa oa x y with
+        have hce := classifyItem_exactP h p (p ++ [if i = j then PSeg.idx i else PSeg.idx2 i j]) (p ++ [if i = j then PSeg.idx i else PSeg.idx2 i j]) sa oa x y
+        cases hcl : classifyItem cfg p (p ++ [if i = j then PSeg.idx i else PSeg.idx2 i j]) (p ++ [if i = j then PSeg.idx i else PSeg.idx2 i j]) sa oa x y with
         | emit r0 s =>
           rw [hcl] at hce
           exact ⟨r0, by simp [keyedWalk, hf, hcl, hr'], hce⟩
